@@ -247,26 +247,19 @@ func runCase(t tcase) (result, []string) {
 		}
 	}
 	n := 0
-	rerr := bus.Replay(ctx, from, func(se *eventbus.StoredEvent) error {
-		n++
-		var d struct{ I int }
-		json.Unmarshal(se.Data, &d)
-		res.Delivered = append(res.Delivered, d.I)
-		if n == t.At {
-			switch t.Fault {
-			case "cb-error":
-				return errCallback
-			case "cb-cancel":
-				cancel()
-				if isSQLite {
-					// database/sql closes the cursor asynchronously after a
-					// cancellation; wait for it so the outcome is not a matter of timing
-					stores.WaitCursorsClosed(2 * time.Second)
-				}
+	var rerr error
+	panicked := false
+	func() {
+		defer func() {
+			if r := recover(); r != nil {
+				// the callback's panic reached the caller: Replay did not claim anything
+				panicked = true
+				rerr = fmt.Errorf("panic: %v", r)
 			}
-		}
-		return nil
-	})
+		}()
+		rerr = replayWith(bus, ctx, from, t, &n, &res, cancel, isSQLite, hd)
+	}()
+	_ = panicked
 	if isSQLite {
 		stores.ResetSQLFaults(0)
 	}
@@ -307,6 +300,16 @@ func runCase(t tcase) (result, []string) {
 		if len(res.Delivered) > t.At {
 			bad("callback failed at event %d but %d events were delivered", t.At, len(res.Delivered))
 		}
+	case "cb-panic":
+		// the panic may reach the caller (then Replay claimed nothing) or be turned into an
+		// error; what must not happen is a nil result - covered by the clause above, since the
+		// callback did not complete for the event it panicked on
+		if len(res.Delivered) > t.At-1 {
+			bad("callback failed at event %d (it panicked) but %d events were delivered", t.At, len(res.Delivered))
+		}
+	case "cb-close":
+		// closing the store under a running replay: everything delivered and nil, or an
+		// error - never nil after a proper prefix (the clause above)
 	case "cb-cancel":
 		// The context was cancelled while events were still undelivered: Replay must
 		// return a non-nil error (however many events it went on to deliver). Only when
@@ -337,7 +340,7 @@ func runCase(t tcase) (result, []string) {
 	// durable-streams store with default chunks only without a bus batch size and from the
 	// oldest offset: its batch truncation and its non-resumable per-event offsets are
 	// recorded findings that a second replay would only show once more.)
-	if len(out) == 0 && (cfg.Kind != "durable" || (t.Batch == 0 && t.Start == 0)) {
+	if len(out) == 0 && t.Fault != "cb-close" && (cfg.Kind != "durable" || (t.Batch == 0 && t.Start == 0)) {
 		fs.failAt = 0
 		if _, err := hd.Store.Append(bg, &eventbus.Event{Type: "t", Data: json.RawMessage(fmt.Sprintf(`{"i":%d}`, t.L+1)), Timestamp: time.Unix(int64(2000+t.L), 0).UTC()}); err != nil {
 			vrt.MachineryFault("append: %v", err)
@@ -359,6 +362,38 @@ func runCase(t tcase) (result, []string) {
 		}
 	}
 	return res, out
+}
+
+// replayWith runs the Replay under test with the callback the case asks for.
+func replayWith(bus *eventbus.EventBus, ctx context.Context, from eventbus.Offset, t tcase, n *int, res *result, cancel context.CancelFunc, isSQLite bool, hd *stores.Handle) error {
+	return bus.Replay(ctx, from, func(se *eventbus.StoredEvent) error {
+		*n++
+		var d struct{ I int }
+		json.Unmarshal(se.Data, &d)
+		res.Delivered = append(res.Delivered, d.I)
+		if *n == t.At {
+			switch t.Fault {
+			case "cb-error":
+				return errCallback
+			case "cb-panic":
+				// delivered, but the callback did not complete for it
+				res.Delivered = res.Delivered[:len(res.Delivered)-1]
+				panic("the replay callback panics")
+			case "cb-close":
+				// the store is closed under the running replay (by the callback itself; a
+				// Shutdown from elsewhere does the same)
+				hd.Close()
+			case "cb-cancel":
+				cancel()
+				if isSQLite {
+					// database/sql closes the cursor asynchronously after a
+					// cancellation; wait for it so the outcome is not a matter of timing
+					stores.WaitCursorsClosed(2 * time.Second)
+				}
+			}
+		}
+		return nil
+	})
 }
 
 // storeFailHit: was the injected store failure actually reached? (p-th Read call /
@@ -400,7 +435,11 @@ func cases(thorough bool) []tcase {
 						}
 					}
 					for k := 1; k <= want; k++ {
-						l = append(l, tcase{Cfg: ci, Batch: b, L: L, Start: s, Fault: "cb-error", At: k}, tcase{Cfg: ci, Batch: b, L: L, Start: s, Fault: "cb-cancel", At: k})
+						l = append(l, tcase{Cfg: ci, Batch: b, L: L, Start: s, Fault: "cb-error", At: k}, tcase{Cfg: ci, Batch: b, L: L, Start: s, Fault: "cb-cancel", At: k},
+							tcase{Cfg: ci, Batch: b, L: L, Start: s, Fault: "cb-panic", At: k})
+						if sqliteCfg {
+							l = append(l, tcase{Cfg: ci, Batch: b, L: L, Start: s, Fault: "cb-close", At: k})
+						}
 					}
 					if cfg.Kind == "durable-chunk1" || (cfg.Kind == "durable" && b == 0 && s == 0) {
 						// the p-th download of the replay ends early (status and headers fine)
